@@ -3,7 +3,7 @@
 From Coq Require Import List Bool Arith ZArith NArith Permutation.
 From XD Require Import lib.ListAux lib.Toposort model.Manager model.ManagerData
   proofs.ManagerIdx proofs.ManagerInv proofs.ManagerHist proofs.ManagerTrace proofs.ManagerDataInv proofs.ManagerExtra.
-From XD Require Import model.TasksSem gen.GenTasks proofs.TasksSrc.
+From XD Require Import model.TasksSem gen.GenTasks proofs.TasksSrc proofs.TasksSrcRefresh.
 Import ListNotations.
 Local Open Scope nat_scope.
 
@@ -118,6 +118,17 @@ Theorem C03_refcount_is_source : forall (k : path) (ks : list path) (rc : @refco
   src_rc_remove path_eqb k rc = match rc_remove path_eqb k rc with Some r => Ok r | None => Err EKey end.
 Proof. intros k ks rc. split; [apply src_rc_append_eq|split; [apply src_rc_extend_eq|apply src_rc_remove_eq]]. Qed.
 
+(* the translated Manager.refresh is the model's refresh (frozen guard first, then the four indices rebuilt
+   from the task list, then cleanup); the translated cleanup is the model's cleanup on every manager whose
+   indices have duplicate-free keys (every reachable one: Inv implies it) *)
+Theorem C03_refresh_is_source : forall (m : dmgr), src_refresh path_eqb m = refresh path_eqb m.
+Proof. exact (src_refresh_eq path_eqb path_eqb_spec). Qed.
+
+Theorem C03_cleanup_is_source : forall (m : dmgr), Inv path_eqb m -> src_cleanup path_eqb m = Ok (cleanup m).
+Proof.
+  intros m (W & _). apply (src_cleanup_eq path_eqb path_eqb_spec). now apply (mwf_keys_ok path_eqb).
+Qed.
+
 Print Assumptions C03_inv_register.
 Print Assumptions C03_inv_unregister.
 Print Assumptions C03_history_independent.
@@ -132,3 +143,5 @@ Print Assumptions C03_register_is_source.
 Print Assumptions C03_register_is_source_paths.
 Print Assumptions C03_unregister_is_source_paths.
 Print Assumptions C03_refcount_is_source.
+Print Assumptions C03_refresh_is_source.
+Print Assumptions C03_cleanup_is_source.
